@@ -179,7 +179,7 @@ class C34(dst.Check):
     real_vs_stub = {'SMPI RMA (smpi_win.cpp, rma requests), locks, fences, PSCW': 'real', 'SimGrid kernel + network': 'real',
                     'MPI application': 'real (generated plan interpreter sim/mpicoll.c, rma mode)',
                     'memory semantics': 'lib/refmpi_coll.py RmaSearch'}
-    budgets = {'quick': dict(runs=3000, wall=50), 'thorough': dict(runs=60000, wall=800)}
+    budgets = {'quick': dict(runs=3000, wall=40), 'thorough': dict(runs=60000, wall=800)}
     max_reported = 12
     shrink_budget = 150
 
